@@ -16,6 +16,7 @@ import (
 	"fmt"
 	"io"
 	"io/fs"
+	"os"
 	"path"
 	"runtime/debug"
 	"sort"
@@ -80,6 +81,9 @@ var impSnippets = []string{
 	"classes: {\n  c: {\n    style.fill: honeydew\n  }\n}\nstyled.class: c\n", "*.style.opacity: 0.5\n", "***.shape: circle\n",
 	"layers: {\n  l1: {\n    q1\n  }\n}\n", "scenarios: {\n  s1: {\n    q2\n  }\n}\n", "vars: {\n  who: local\n}\n", "t: |md\n  # title\n|\n",
 	"(p1 -> p2)[0].style.stroke: red\n", "tbl: {\n  shape: sql_table\n  id: int\n}\n", "n: null\n", "arr: [1; 2; ${who}]\n",
+	// globs that ask whether something is a container or a leaf make the compiler look into
+	// imports ahead of importing them
+	"*: {\n  &leaf: true\n  style.fill: red\n}\n", "** -> **\n", "**: {\n  &leaf: false\n  style.stroke: blue\n}\n", "* -> *: {\n  &src.leaf: true\n}\n",
 }
 
 // simFS serves the file set with tape-chosen behaviour per open.
@@ -224,6 +228,24 @@ func compileC07(main string, fsys fs.FS, utf16pos bool) c07Out {
 	}
 }
 
+// panicInImportCode: the innermost frame of d2 in the panic's stack is in d2ir/import.go,
+// i.e. the import machinery itself crashed (in the slice), not the compiler proper on what
+// an import delivered.
+func panicInImportCode(p string) bool {
+	lines := strings.Split(p, "\n")
+	seenPanic := false
+	for i, l := range lines {
+		if strings.HasPrefix(l, "panic(") {
+			seenPanic = true
+			continue
+		}
+		if seenPanic && strings.HasPrefix(l, "oss.terrastruct.com/d2/") && i+1 < len(lines) {
+			return strings.Contains(lines[i+1], "/d2ir/import.go:")
+		}
+	}
+	return false
+}
+
 type c07Sample struct {
 	Main   string   `json:"main"`
 	Files  []string `json:"files"`
@@ -357,7 +379,10 @@ func runC07(cfg harness.Config, idx int, tp *tape.Tape) harness.Result {
 	}
 	res.Tracef("main=%q files=%v edges=%v cyclic=%v", clip(main), names, edgeDesc, cyc)
 	res.SchedHash = harness.HashStrings(append([]string{main}, edgeDesc...))
-	budget := 4000
+	budget := 100000 // leaf-sensitive globs make the compiler look into imports ahead of importing them: thousands of opens for four files are normal
+	if v := os.Getenv("VSIM_C07_BUDGET"); v != "" {
+		fmt.Sscan(v, &budget)
+	}
 	dirKinds := 0
 
 	// ---- 1. one-shot, fault-free
@@ -378,7 +403,7 @@ func runC07(cfg harness.Config, idx int, tp *tape.Tape) harness.Result {
 		}
 		return false
 	}
-	if strings.HasPrefix(r0.Panic, "panic:") {
+	if strings.HasPrefix(r0.Panic, "panic:") && !panicInImportCode(r0.Panic) {
 		// The compiler proper crashes on this program however its files are delivered: that
 		// is the input-space half of C07, which this slice samples but does not decide
 		// (DESIGN.md). It is counted and shown in the evidence, not reported.
